@@ -505,6 +505,34 @@ def check_consumers(case, rec=None):
                 fails.append(fail("grainsino", "GrainSinogram.recon maximum at (%d,%d), geometry predicts (%.2f,%.2f): "
                                   "%.2f px apart (%d projections); %s" % (ri, rj, pr[0], pr[1], d, nproj, where),
                                   what="argmax"))
+            # ---- the same object asked again with a region-of-interest mask, another mask, and no mask
+            full = np.array(rc, float)
+            scale = np.abs(full).max()
+            mrng = np.random.RandomState((case["seed"] + 5) % (2 ** 32))
+            for step in range(3):
+                if step < 2:
+                    M = np.zeros(full.shape, bool)
+                    i0, i1 = sorted(mrng.randint(0, full.shape[0], 2))
+                    j0, j1 = sorted(mrng.randint(0, full.shape[1], 2))
+                    M[i0:i1 + 1, j0:j1 + 1] = True
+                    gs.update_recon_parameters(mask=M)
+                else:
+                    M = np.ones(full.shape, bool)
+                    gs.recon_mask = None
+                with contextlib.redirect_stdout(io.StringIO()):
+                    ok, rm = guard(gs.recon, workers=2)
+                if not ok:
+                    fails.append(exc_failure("GrainSinogram.recon (mask history)", rm))
+                    break
+                rm = np.asarray(rm, float)
+                if rm.shape != full.shape or np.abs(rm[M] - full[M]).max(initial=0) > 1e-9 * scale or \
+                        np.abs(rm[~M]).max(initial=0) != 0:
+                    fails.append(fail("grainsino", "GrainSinogram.recon, step %d of a mask history on one object (mask, "
+                                      "other mask, no mask): not the full reconstruction on the region of interest "
+                                      "and zero outside; %s" % (step, where), what="maskhistory"))
+                    break
+            gs.recon_mask = None
+            gs.recons["iradon"] = full
             gs.grain.translation = None
             ok, e = guard(gs.update_lab_position_from_recon)
             if not ok:
